@@ -588,7 +588,7 @@ def main():
     if old != text:
         with open(OUT, "w") as f:
             f.write(text)
-    info = {"status": status, "hashes": {n: norm_hash(funcs[n]) for n in ORDER if n in funcs}, "changed": old != text}
+    info = {"status": status, "hashes": {n: norm_hash(funcs[n]) for n in ORDER if n in funcs}}
     with open(os.path.join(os.path.dirname(OUT), "helpers_status.json"), "w") as f:
         json.dump(info, f, indent=1, sort_keys=True)
     print(json.dumps(status))
